@@ -273,6 +273,59 @@ Section Stack.
       end
     end.
 
+  (* ------------------------------------------------------------ poll_ready more than once *)
+  (* The tower Service contract allows poll_ready to be called any number of times before `call`.
+     The plain Buffer worker never does, tower's p2c Balance (Channel::balance_list /
+     balance_channel: Balance in front of one lazy Reconnect per endpoint, behind the same Buffer
+     worker) does: an endpoint is polled until Ready (ReadyCache::poll_pending), and the chosen one
+     is polled AGAIN right before dispatch (ReadyCache::check_ready_index).
+     [ready_n n]: n further calls of poll_ready; stops at the first answer that is not Ready(Ok) *)
+  Fixpoint ready_n (fuel n : nat) (rc : reconnect) (w : world) {struct n} : reconnect * world * pr :=
+    match n with
+    | O => (rc, w, PrReadyOk)
+    | S n' =>
+        match poll_ready fuel rc w with
+        | (rc', w', PrReadyOk) => ready_n fuel n' rc' w'
+        | r => r
+        end
+    end.
+
+  (* Buffer worker + Balance over ONE endpoint, for one request: the endpoint is polled until
+     Ready, [n] more times (Balance: n = 1), then called.  An endpoint that is Pending on a
+     re-poll goes back to the pending set (polled until Ready again); one whose poll_ready FAILS is
+     evicted (Balance logs it and has no endpoint left: it stays Pending, the request is never
+     answered = OutOfFuel) *)
+  Fixpoint serve_again (n : nat) (fuel : nat) (ch : chan) (w : world) {struct fuel} : chan * world * outcome :=
+    match ch_failed ch with
+    | Some e => (ch, w, WorkerClosed)
+    | None =>
+      match fuel with
+      | O => (ch, w, OutOfFuel)
+      | S fuel' =>
+        match poll_ready fuel (ch_rc ch) w with
+        | (rc, w', PrPending) => serve_again n fuel' (mkChan rc None) w'
+        | (rc, w', PrReadyOk) =>
+            match ready_n fuel n rc w' with
+            | (rc2, w2, PrReadyOk) =>
+                match call rc2 with
+                | (rc', CoErr e) => (mkChan rc' None, w2, ConnectErr e)
+                | (rc', CoSent c) => (mkChan rc' None, w2, sent_outcome c)
+                | (rc', CoPanic) => (mkChan rc' None, w2, Panic)
+                end
+            | (rc2, w2, PrPending) => serve_again n fuel' (mkChan rc2 None) w2
+            | (rc2, w2, PrReadyErr e) => (mkChan rc2 None, w2, OutOfFuel)
+            | (rc2, w2, PrPanic) => (mkChan rc2 None, w2, Panic)
+            | (rc2, w2, PrMisuse) => (mkChan rc2 None, w2, ConnectorMisuse)
+            | (rc2, w2, PrSpin) => (mkChan rc2 None, w2, OutOfFuel)
+            end
+        | (rc, w', PrReadyErr e) => (mkChan rc None, w', OutOfFuel)
+        | (rc, w', PrPanic) => (mkChan rc None, w', Panic)
+        | (rc, w', PrMisuse) => (mkChan rc None, w', ConnectorMisuse)
+        | (rc, w', PrSpin) => (mkChan rc None, w', OutOfFuel)
+        end
+      end
+    end.
+
   (* ------------------------------------------------------------ building the channel *)
   Inductive ready_out := RoOk | RoErr (e : cerr) | RoPanic | RoMisuse | RoHang.
   (* ServiceExt::ready_oneshot on the fresh Connection (Connection::connect) *)
@@ -350,6 +403,28 @@ Section Stack.
     | Calls k :: h' =>
         let '(rs1, ch', w') := serve_batch fuel k ch w in
         let '(rs2, ch'', w'') := run_steps fuel h' (settle ch') w' in
+        (rs1 ++ rs2, ch'', w'')
+    end.
+
+  (* the same history on a balanced channel with one endpoint (requests are served one by one) *)
+  Fixpoint serve_batch_again (n fuel : nat) (k : nat) (ch : chan) (w : world) {struct k}
+    : list call_rec * chan * world :=
+    match k with
+    | O => ([], ch, w)
+    | S k' =>
+        let '(ch', w', o) := serve_again n fuel ch w in
+        let '(rs, ch'', w'') := serve_batch_again n fuel k' ch' w' in
+        ((w_attempts w, o, w_attempts w') :: rs, ch'', w'')
+    end.
+  Fixpoint run_steps_again (n fuel : nat) (h : list step) (ch : chan) (w : world) {struct h}
+    : list call_rec * chan * world :=
+    match h with
+    | [] => ([], ch, w)
+    | Env e :: h' => let '(ch', w') := apply_ev e ch w in run_steps_again n fuel h' ch' w'
+    | EnvRacyDrop b :: h' => run_steps_again n fuel h' (drop_conn (if b then Closed else Severed) ch) w
+    | Calls k :: h' =>
+        let '(rs1, ch', w') := serve_batch_again n fuel k ch w in
+        let '(rs2, ch'', w'') := run_steps_again n fuel h' (settle ch') w' in
         (rs1 ++ rs2, ch'', w'')
     end.
 
@@ -480,6 +555,49 @@ Definition obs_run_codes (is_lazy : bool) (net0 : reach) (h : list step) : tr :=
   let r := run is_lazy 0 0 net0 h in
   Nd [oopt (fun o => Nn (ready_code_n o)) (r_eager r);
       olist (fun c : call_rec => Nn (outcome_code_n (snd (fst c)))) (r_calls r)].
+
+(* a balanced channel (Channel::balance_list / balance_channel) with ONE endpoint: a lazy Reconnect
+   (DynamicServiceStream builds Connection::lazy), polled [again] more times before every call *)
+Definition run_balanced_with cpr sreq (again fuel lat prl : nat) (net0 : reach) (h : list step) : list call_rec :=
+  fst (fst (run_steps_again cpr sreq again fuel h (mkChan (new_reconnect true) None) (init_world net0 lat prl))).
+Definition run_balanced (again lat prl : nat) (net0 : reach) (h : list step) : list call_rec :=
+  run_balanced_with real_conn_poll_ready real_send_request again (fuel_for lat prl) lat prl net0 h.
+Definition obs_balance_codes (again : N) (net0 : reach) (h : list step) : tr :=
+  olist (fun c : call_rec => Nn (outcome_code_n (snd (fst c)))) (run_balanced (N.to_nat again) 0 0 net0 h).
+
+(* SEVERAL endpoints.  Which endpoint answers a call is tower's p2c choice among the ready ones
+   and a race of connects: NOT modelled.  What is compared is the class of every call made while
+   no endpoint of the balancer's set is reachable - the outcome of the one-endpoint balanced
+   driver on an unreachable endpoint; calls made while some endpoint is reachable are 0 (the
+   harness canonicalises what its oracle admits to 0) *)
+Inductive bstep := BUp (e : nat) | BDown (e : nat) | BInsert (e : nat) | BRemove (e : nat) | BCall.
+Fixpoint set_nth (e : nat) (b : bool) (l : list bool) : list bool :=
+  match l, e with
+  | [], _ => []
+  | _ :: t, O => b :: t
+  | x :: t, S e' => x :: set_nth e' b t
+  end.
+Fixpoint any_reachable (inset up : list bool) : bool :=
+  match inset, up with
+  | i :: it, u :: ut => (i && u) || any_reachable it ut
+  | _, _ => false
+  end.
+Definition unreachable_code : N :=
+  match run_balanced 1 0 0 (Down 2) [Call] with
+  | c :: _ => outcome_code_n (snd (fst c))
+  | [] => 1001
+  end.
+Fixpoint balance_set_codes (inset up : list bool) (h : list bstep) : list N :=
+  match h with
+  | [] => []
+  | BUp e :: h' => balance_set_codes inset (set_nth e true up) h'
+  | BDown e :: h' => balance_set_codes inset (set_nth e false up) h'
+  | BInsert e :: h' => balance_set_codes (set_nth e true inset) up h'
+  | BRemove e :: h' => balance_set_codes (set_nth e false inset) up h'
+  | BCall :: h' => (if any_reachable inset up then 0 else unreachable_code) :: balance_set_codes inset up h'
+  end.
+Definition obs_balance_set_codes (inset up : list bool) (h : list bstep) : tr :=
+  olist Nn (balance_set_codes inset up h).
 
 (* ---------------------------------------------------------------- assumed contracts, as a predicate *)
 (* What the theorems assume about the parameters of [Section Stack] (hyper).  The
